@@ -117,6 +117,11 @@ def c10_2(rep, ix, R="C10.2"):
         for x in [n for n in ast.walk(fn) if isinstance(n, ast.Name) and n.id == p0 and isinstance(n.ctx, ast.Load)]:
             par = parents.get(id(x))
             okuse = isinstance(par, ast.Call) and x in par.args and u(par.func).split(".")[-1] in ALLOWED_CONSUMERS
+            # ... or to the helper of the package that builds the lexer / parser (checked itself, as a pipeline)
+            if not okuse and isinstance(par, ast.Call) and x in par.args and isinstance(par.func, ast.Name):
+                hq = ix.resolve_name(f.mod, par.func.id)
+                if hq in pipelines or (hq in ix.funcs and var_bound_to_call(ix.funcs[hq].node, "blackbirdLexer")):
+                    okuse = True
             if okuse and u(par.func).split(".")[-1] == "str":
                 # str(text) is still the text: what matters is where *that* goes
                 gp = parents.get(id(par))
